@@ -219,7 +219,8 @@ def build_scan(case, cols):
         'reverse x unroll {1,2,>length} x check_constancy_invariants on/off x in/out axis 0/1 x broadcast input x '
         'split_rngs per stream x outer mutable filter; init: axis collections '
         'have size `length` at the declared position, split params differ per '
-        'slice and unsplit are identical; apply equals a Python loop over '
+        'slice and unsplit are identical; for stateless bodies the outputs of '
+        'init equal apply on the returned variables; apply equals a Python loop over '
         'sliced variables calling the unlifted body (final carry, stacked '
         'outputs, every returned collection); per-iteration keys pairwise '
         'different iff the stream is split; non-trivial = >=2 distinct roles '
@@ -283,6 +284,18 @@ def scan_vs_loop(case, ctx):
       (c_i, (ys_i, kd_i, ym_i)), V = scanned.init_with_output(keys, *args)
     V = unfreeze(V)
     ctx.note(labels=['scan-init'])
+    if cols <= {'params'}:
+      # without state, the outputs of init are those of apply on the
+      # variables init returns (broadcast ones included: created once, then
+      # used by every iteration)
+      with sut('scan apply(init variables)'):
+        c_a, (ys_a, _, ym_a) = scanned.apply(
+            V, *args, rngs={'dropout': keys['dropout']})
+      require(close(c_i, c_a) and close(ys_i, ys_a) and close(ym_i, ym_a),
+              lambda: 'the outputs init_with_output returns differ from '
+              f'apply on the variables it returns (roles={roles}): carry '
+              f'{np.asarray(c_i)} vs {np.asarray(c_a)}')
+      ctx.note(labels=['init-output-vs-apply'])
   # --- init tree: plain tree with a length axis at the declared position
   fp, fv = L.flat(Vp), L.flat(V)
   require(set(fp) == set(fv), lambda: f'scan init tree {sorted(fv)} != plain '
